@@ -26,6 +26,8 @@ pub fn run(ctx: &Ctx, rep: &mut Report) {
         let body = evgen::gexpr(&mut rng, bt, &sc, bd);
         // the closure may also use its parameter and a shorthand record
         let reuse = if nums.is_empty() { None } else { Some(rng.pick(&nums).clone()) };
+        let strs: Vec<String> = sc.vars.iter().filter(|(_, t)| *t == Ty::Str).map(|(n, _)| n.clone()).collect();
+        let reuse_s = if strs.is_empty() { None } else { Some(rng.pick(&strs).clone()) };
         let (def, call) = match i % 8 {
             // a do-block / lambda / nested do-block inside the body binds a local that has the name of a
             // captured variable; the variable is used again after it
@@ -36,6 +38,18 @@ pub fn run(ctx: &Ctx, rep: &mut Report) {
             6 if reuse.is_some() => {
                 let v = reuse.clone().unwrap();
                 (format!("clo = (arg) => {{a: if arg > 0 then do {{\n  {} = 1\n  return {}\n}} else 0, b: {} + arg, c: [1] via ({} => {} + 1), d: {}}}", v, v, v, v, v, v), "clo(41)".to_string())
+            }
+            3 if reuse_s.is_some() && i % 16 >= 8 => {
+                // a captured name that is used only in a dynamic record key / a spread / an index
+                let v = reuse_s.clone().unwrap();
+                let form = *rng.pick(&[
+                    "clo = (arg) => {...{base: 1}, [V]: arg}",
+                    "clo = (arg) => {[V + \"x\"]: arg, n: 1}",
+                    "clo = (arg) => [...V, arg]",
+                    "clo = (arg) => {a: arg}[V] ?? V",
+                    "clo = (arg) => (() => {[V]: arg})()",
+                ]);
+                (form.replace('V', &v), "clo(41)".to_string())
             }
             4 if reuse.is_some() && i % 16 >= 8 => {
                 let v = reuse.clone().unwrap();
@@ -61,7 +75,7 @@ pub fn run(ctx: &Ctx, rep: &mut Report) {
         let mut names: Vec<String> = nums.clone();
         names.push("local".into());
         names.push("arg".into());
-        let shadow = if (i % 8 >= 5 || (i % 8 == 4 && i % 16 >= 8)) && reuse.is_some() { reuse.clone().unwrap() } else if names.is_empty() { "zz".to_string() } else { rng.pick(&names).clone() };
+        let shadow = if i % 8 == 3 && i % 16 >= 8 && reuse_s.is_some() { reuse_s.clone().unwrap() } else if (i % 8 >= 5 || (i % 8 == 4 && i % 16 >= 8)) && reuse.is_some() { reuse.clone().unwrap() } else if names.is_empty() { "zz".to_string() } else { rng.pick(&names).clone() };
         check_contexts(&mut model, rep, &prefix, &def, &call, &shadow, i);
     }
 
@@ -84,6 +98,17 @@ pub fn run(ctx: &Ctx, rep: &mut Report) {
             _ => (format!("clo = ({}) => [{{{}}}, {}]", name, name, body), "clo(41)".to_string()),
         };
         check_contexts(&mut model, rep, &prefix, &def, &call, name, 100000 + i);
+    }
+
+    // a captured name that occurs ONLY in an unusual position of the body: dynamic record key, spread,
+    // index, default of `??`, callee, conditional test, nested function - called from contexts that rebind it
+    for (k, form) in [
+        "clo = (arg) => {...{base: 1}, [V]: arg}", "clo = (arg) => {[V + \"x\"]: arg, n: 1}", "clo = (arg) => [...V, arg]", "clo = (arg) => {a: arg}[V] ?? \"none\"",
+        "clo = (arg) => (() => {[V]: arg})()", "clo = (arg) => [arg] via (e => {[V]: e})", "clo = (arg) => if V == \"k\" then arg else 0", "clo = (arg) => {...{[V]: 1}}",
+        "clo = (arg) => do {\n  r = {[V]: arg}\n  return r\n}", "clo = (arg) => arg ?? V", "clo = (arg) => [arg, #V ?? 1]", "clo = (arg) => split(V, \"\")",
+    ].iter().enumerate() {
+        let prefix = "sk = \"k\"\nnum = 5";
+        check_contexts(&mut model, rep, prefix, &form.replace('V', "sk"), "clo(41)", "sk", 90_000 + k);
     }
 
     // parameter binding of the documented shape: required*, optional*, rest?
